@@ -161,6 +161,36 @@ func checkC11(sc *Scenario, res *RunResult, t *Truth) []Violation {
 			}
 		}
 	}
+	// the log file of a process at the moment its state says that it has ended
+	for _, c := range t.Calls {
+		fs, ok := c.Data.(*FileSnap)
+		if !ok || fs == nil || fs.Status == "still running" || c.Err != "" {
+			continue
+		}
+		var got []string
+		for _, ln := range strings.Split(fs.Content, "\n") {
+			if ln == "" {
+				continue
+			}
+			if strings.HasPrefix(ln, "{") {
+				var rec map[string]any
+				if json.Unmarshal([]byte(ln), &rec) == nil {
+					msg, _ := rec["message"].(string)
+					got = append(got, msg)
+					continue
+				}
+			}
+			got = append(got, ln)
+		}
+		// every launch of the process had ended by then: all of its lines are due
+		owner := fileOwner(sc, fs.Name)
+		if v := checkLines("log-file", owner, got, exp[owner], true); v != nil {
+			v.Class += "-when-reported-ended"
+			v.Msg += fmt.Sprintf(" at the moment its state said %s (t=%v)", fs.Status, c.RetT)
+			vs = append(vs, *v)
+			return vs
+		}
+	}
 	// log files, once Run() has returned
 	if t.RunRet >= 0 {
 		fileLines := map[string][]string{} // replica -> messages found in any file
